@@ -46,7 +46,7 @@ ASSUMPTIONS = [
 ]
 TIERS = {
     "quick": {"shards": 16, "cases": 3400, "timeout": 600},
-    "thorough": {"shards": 16, "cases": 102000, "timeout": 7200},
+    "thorough": {"shards": 16, "cases": 500000, "timeout": 7200},
 }
 FLOORS = {
     "quick": {
